@@ -24,7 +24,7 @@ BUDGET = {'quick': 40, 'thorough': 300}
 BLOCK = 8
 STREAM_ORDER = ['ops', 'guards', 'faults', 'chart', 'cfg']
 RULE = ('well-formed chart with contracts reading __old__, history states, sends and delayed events; a seeded script of queue (with '
-        'delays) / clock advance / execute_once with drawn guard outcomes and some contract conditions made false; in a third of the runs a property statechart that reads its synchronised clock is bound and is part of the snapshot; in a third of the runs guards log after() and idle(); in a third some sent events carry the list of the context itself as a parameter; in a third the interpreter is bound to a method of a component object that is also reachable from its context; in a quarter the context holds a counter named __n__ that entry code increments; a quarter of the delayed events are queued through the deprecated DelayedEvent class, whose delay attribute the code reads when it looks at the event; in a quarter of the runs the clock is a started sismic SimulatedClock (speed 1, 2 or 1/2) fed by a scripted wall time. The "crash" is a '
+        'delays) / clock advance / execute_once with drawn guard outcomes and some contract conditions made false; in a third of the runs a property statechart that reads its synchronised clock is bound and is part of the snapshot; in a third of the runs guards log after() and idle(); in a third some sent events carry the list of the context itself as a parameter; in a third the interpreter is bound to a method of a component object that is also reachable from its context; in a quarter the context holds a counter named __n__ that entry code increments; one run in six also snapshots a small counter chart that starts with an empty context (no preamble, no initial context; its contracts ask __old__ whether a variable existed); a quarter of the delayed events are queued through the deprecated DelayedEvent class, whose delay attribute the code reads when it looks at the event; in a quarter of the runs the clock is a started sismic SimulatedClock (speed 1, 2 or 1/2) fed by a scripted wall time. The "crash" is a '
         'snapshot (pickle.dumps+loads, and copy.deepcopy) taken at a macro-step boundary: at EVERY boundary b of the script (thorough) or 6 '
         'drawn boundaries (quick), and a second time a few steps later (restore, continue, crash again). The restored interpreter and the '
         'original are continued in lock-step and both must reproduce the undisturbed control run: macro steps, configurations, context, '
@@ -326,8 +326,61 @@ def _run(ch, tier):
                     res.stats['runs_with_text_shared_by_statement_and_condition'] += 0 if b != bounds[0] or kind != 'pickle' else 1
                 if res.sample is None:
                     res.sample = {'chart': sp.describe()[:14], 'script': [repr(o)[:70] for o in script][:14], 'boundary': b, 'kind': kind}
+    if fs.flag(1, 6):
+        bad = bare_case(fs, res)
+        if bad:
+            return res.fail('restored-diverges', bad, chart='counter chart without preamble or initial context')
     res.sim_time = float(control.it.time)
     return res
+
+
+def _bare_chart():
+    """a statechart that starts with an empty context: no preamble, no initial context; its only variable is created by an action
+    (setdefault), and the contracts of its states ask whether it existed when the state was entered"""
+    sc = Statechart('counter')
+    sc.add_state(CompoundState('r', initial='a'), None)
+    for n in ('a', 'b'):
+        st_ = BasicState(n)
+        st_.invariants.append("'n' not in __old__ or __old__['n'] <= n")
+        st_.postconditions.append("('n' in __old__) or n >= 1")
+        sc.add_state(st_, 'r')
+        sc.add_transition(Transition(n, None, event='e', action="n = setdefault('n', 0) + 1"))
+    sc.add_transition(Transition('a', 'b', event='x'))
+    sc.add_transition(Transition('b', 'a', event='x'))
+    return sc
+
+
+BARE = _bare_chart()
+
+
+def bare_case(fs, res):
+    """snapshot of an interpreter whose context was empty when its active states were entered"""
+    script = [fs.pick(['e', 'e', 'x']) for _ in range(fs.int(2, 7))]
+    b = fs.choice(len(script))
+    kind = fs.pick(['pickle', 'deepcopy'])
+
+    def play(it, names):
+        out = []
+        for n in names:
+            it.queue(n)
+            try:
+                ms = it.execute_once()
+                out.append((repr(ms), it.configuration, dict(it.context)))
+            except Exception as e:
+                out.append((type(e).__name__, str(e)[:100]))
+                break
+        return out
+    orig = Interpreter(BARE, ignore_contract=False)
+    orig.execute_once()
+    play(orig, script[:b])
+    it2 = pickle.loads(pickle.dumps(orig, protocol=PROTOCOL[0])) if kind == 'pickle' else copy.deepcopy(orig)
+    res.stats['fault_crash_restore_with_an_empty_entry_context'] += 1
+    x, y = play(it2, script[b:]), play(orig, script[b:])
+    if x != y:
+        i = next((i for i, (p_, q_) in enumerate(zip(x, y)) if p_ != q_), 0)
+        return 'snapshot by %s after %r of the counter chart; continuing with %r the restored interpreter gives %r, the original %r' % (
+            kind, script[:b], script[b:], x[i] if i < len(x) else None, y[i] if i < len(y) else None)
+    return None
 
 
 # ----------------------------------------------------------------------------- restore in another process
